@@ -56,7 +56,8 @@ pub enum Pred {
     Expect(Expect),
     // All sources must give the same stdout and status class; with
     // `same_msg`, failing ones must also give the same message after the
-    // position; with `positions`, source i must report exactly positions[i].
+    // position; with `positions`, source i must report exactly positions[i]
+    // ((0, 0) = the position variant 0 reports).
     Same{same_msg: bool, positions: Option<Vec<(u32, u32)>>},
     // In-process: the real parser's tree for srcs[0], printed with `{:?}`,
     // must equal `expected` (generic Debug-tree syntax); positions are
@@ -319,8 +320,10 @@ fn eval_with(case: &Case, run: &dyn Fn(&[u8]) -> Obs, via: Via, custom: Option<C
                     for (i, o) in obs.iter().enumerate() {
                         match msg_of(o) {
                             Some((l, c, _)) => {
-                                if (l, c) != ps[i] {
-                                    return Verdict::Fail(format!("variant {i} reports {l}:{c}, the token is at {}:{}", ps[i].0, ps[i].1));
+                                // (0, 0) stands for "where variant 0 reports it".
+                                let want = if ps[i] == (0, 0) { msg_of(o0).map(|m| (m.0, m.1)).unwrap_or((0, 0)) } else { ps[i] };
+                                if (l, c) != want {
+                                    return Verdict::Fail(format!("variant {i} reports {l}:{c}, the token is at {}:{}", want.0, want.1));
                                 }
                             },
                             None => return Verdict::Fail(format!("diagnostic without position: {}", o.brief())),
